@@ -83,6 +83,8 @@ type Out struct {
 	Accesses      []AccessSite        `json:"accesses"`
 	Cells         []CellInfo          `json:"cells"`
 	AccessNotes   []string            `json:"access_notes"`
+	Acquisitions  []AcqSite           `json:"acquisitions"` // C10: Lock/RLock sites with the may-held sets (acquire.go)
+	AcqNotes      []string            `json:"acq_notes"`
 }
 
 func main() {
